@@ -20,7 +20,7 @@ ASSUMPTIONS = ['the library\'s own log lines, timestamps, user name and extra ru
 BUDGET = {'quick': 75, 'thorough': 1500}
 WANT = {'C18', 'C08'}
 OPTS = {'max_sessions': 3, 'max_chains': 3, 'max_requests': 7, 'p_inspect': 0.3, 'p_force': 0.12, 'p_fault': 0.15, 'p_spawn': 0.05,
-        'inspect_kinds': ['run_info', 'log'], 'inspect_after_run': 0.4}
+        'inspect_kinds': ['run_info', 'run_info', 'log'], 'inspect_after_run': 0.6}
 
 
 def run_case(case) -> CaseResult:
